@@ -49,8 +49,7 @@ def find_cc_body(ctx, R, name):
     return hits[0]
 
 
-def rule_greg_map(ctx):
-    R = "C05/greg-map"
+def rule_greg_map(ctx, R="C05/greg-map"):
     b = find_cc_body(ctx, R, "fill_cpu_context")
     if b is None:
         return
